@@ -21,6 +21,8 @@ def plan(prop, tier):
         # histories in which the allocator refuses a request: whatever the call answers, nothing may be lost
         for i in range(2 if q else 8):
             shards.append(('faultleak', SEED * 1000 + 700 + i, 1 if q else 6))
+    if prop == 'C07':
+        shards.append(('parseledger', 0, 0))
     if prop == 'C19':
         shards.append(('widesort', 0, 0))
     if prop == 'C14':
@@ -279,6 +281,21 @@ def run_shard(shard_prop, bins, workdir, tier):
             ops += (['clr 1', 'del 8'] if member else ['del 1'])
             cases.append((i, 'default' if i % 2 else 'custom', ops))
             extra[i] = (o, cs, distinct, via)
+    elif kind == 'parseledger':
+        # parse + delete of documents whose tokens sit around the sizes of internal buffers; whatever the
+        # parser makes of them (numbers beyond 63 characters are outside C02), the balance must return to zero
+        toks = []
+        for L in list(range(58, 70)) + [126, 127, 128, 129, 255, 256, 257, 1023, 1024, 1025]:
+            toks += [b'1' * L, b'-' + b'9' * (L - 1), b'0.' + b'3' * (L - 2), b'1e' + b'0' * (L - 3) + b'5', b'1' + b'0' * (L - 4) + b'e-9', b'-0.' + b'0' * (L - 5) + b'1E1',
+                     b'"' + b'k' * (L - 2) + b'"', b'"' + b'\\u00e9' * ((L - 2) // 6) + b'"', b'"' + b'\\n' * ((L - 2) // 2) + b'"']
+        cid = 0
+        for t in toks:
+            for w in (lambda x: x, lambda x: b'[' + x + b']', lambda x: b'[1,' + x + b',"tail"]', lambda x: b'{"k":' + x + b'}', lambda x: b'{"k":' + x + b',"k2":' + x + b'}',
+                      lambda x: b' ' + x + b' ', lambda x: (b'{' + x + b':1}') if x.startswith(b'"') else (b'[' + x + b',' + x + b']')):
+                txt = w(t)
+                ops = ['parse 1 %d %s 0' % (cid % 4, hx(txt)), 'print 1 1', 'del 1', 'parse 1 %d %s 1' % (1 + 2 * (cid % 2), hx(txt)), 'del 1']
+                cases.append((cid, 'default' if cid % 2 else 'custom', ops))
+                cid += 1
     elif kind == 'widesort':
         # wide objects on a painted stack: the sort must cope with any width (its stack use may grow
         # with the logarithm of the member count, not with the count), in every arrangement
@@ -421,7 +438,13 @@ def run_shard(shard_prop, bins, workdir, tier):
                     out.count('op:' + o.split(' ', 1)[0])
             if cl.died:
                 continue
-            if kind == 'faultleak':
+            if kind == 'parseledger':
+                out.evals += 2
+                if first:
+                    out.count('token_length_parses', 2)
+                if cl.end and cl.end.get('live') != '0':
+                    out.vios.append(Violation(prop, prop + '/parse/leak-around-buffer-sizes', '%s blocks (%s bytes) live after parse + print + delete of a document with a %d-byte text' % (cl.end['live'], cl.end['bytes'], (len(ops[0].split()[3]) - 1) // 2), wit(cl, 0)))
+            elif kind == 'faultleak':
                 from . import p_fault
                 p_fault.judge(prop, cl, extra[cid][0], extra[cid][1], out, wit, first, ledger_only=True)
             elif kind == 'widesort':
@@ -654,7 +677,7 @@ def finish(prop, tier, results):
     muts = {k[4:]: v for k, v in sorted(tot.stats.items()) if k.startswith('mut:')}
     if muts:
         cov['programs_reaching_mutation_kind'] = muts
-    for k in ('wide_sorts', 'wide_sort_members_max', 'wide_sort_stack_shuffled_bytes', 'wide_sort_stack_max'):
+    for k in ('token_length_parses', 'wide_sorts', 'wide_sort_members_max', 'wide_sort_stack_shuffled_bytes', 'wide_sort_stack_max'):
         if k in tot.stats:
             cov[k] = tot.stats[k]
     scn = {k[4:]: v for k, v in sorted(tot.stats.items()) if k.startswith('scn:')}
